@@ -57,4 +57,84 @@ def substrateAppend (cur item : Bytes) : Bytes :=
 /-- a run of appends (the value after `ext_storage_append_version_1` was called for every item) -/
 def appendAll (cur : Bytes) (items : List Bytes) : Bytes := items.foldl storageAppend cur
 
+/-! ## storageAppend against the layered runtime storage (lib/runtime/storage `TrieState`)
+
+`TrieState` = the state trie plus a stack of transaction layers; `StartTransaction` pushes a
+snapshot of the current layer, `RollbackTransaction` drops the top layer, `CommitTransaction`
+replaces the parent layer by the top one (the outermost commit writes it into the trie).  Values
+are plain byte strings here: a layer never changes unless an operation is applied TO it — what
+`storageAppend` must respect although `Get` hands out the layers' internal slices. -/
+
+/-- one view of the storage: key ↦ value (absent = empty) -/
+abbrev Store := List (Bytes × Bytes)
+
+def Store.get (s : Store) (k : Bytes) : Bytes :=
+  match s with
+  | [] => []
+  | (k', v) :: rest => if k' = k then v else Store.get rest k
+
+def Store.set (s : Store) (k v : Bytes) : Store := (k, v) :: s
+
+inductive Op
+  | app (k item : Bytes)      -- storageAppend(ts, k, item)
+  | put (k v : Bytes)         -- ts.Put(k, v)
+  | get (k : Bytes)
+  | tbegin                    -- StartTransaction
+  | rollback                  -- RollbackTransaction
+  | commit                    -- CommitTransaction
+  | cap (k : Bytes)           -- keep the slice `ts.Get(k)` returned
+  | snap                      -- continue on a snapshot of the trie, keep the old trie
+deriving Repr, DecidableEq
+
+/-- the stack of views, innermost transaction first, the trie last; `none` = Go panic
+    ("no transactions to rollback/commit") -/
+def stepS (st : List Store) : Op → Option (List Store)
+  | .app k item =>
+    match st with
+    | top :: rest => some (top.set k (storageAppend (top.get k) item) :: rest)
+    | [] => none
+  | .put k v =>
+    match st with
+    | top :: rest => some (top.set k v :: rest)
+    | [] => none
+  | .tbegin =>
+    match st with
+    | top :: rest => some (top :: top :: rest)
+    | [] => none
+  | .rollback =>
+    match st with
+    | _ :: t2 :: rest => some (t2 :: rest)
+    | _ => none
+  | .commit =>
+    match st with
+    | top :: _ :: rest => some (top :: rest)
+    | _ => none
+  | _ => some st
+
+def runS : List Op → List Store → Option (List Store)
+  | [], st => some st
+  | op :: ops, st =>
+    match stepS st op with
+    | none => none
+    | some st' => runS ops st'
+
+/-- full harness state: the stack, the values captured by `cap` (as they were), the old trie kept
+    by `snap` -/
+structure TS where
+  stack : List Store
+  caps : List (Bytes × Bytes)
+  old : Option Store
+deriving Repr
+
+def TS.init : TS := ⟨[[]], [], none⟩
+
+def TS.step (t : TS) (op : Op) : Option TS :=
+  match stepS t.stack op with
+  | none => none
+  | some st' =>
+    match op with
+    | .cap k => some { t with stack := st', caps := (k, (t.stack.headD []).get k) :: t.caps.filter (·.1 ≠ k) }
+    | .snap => if t.stack.length = 1 then some { t with stack := st', old := some (t.stack.headD []) } else some t
+    | _ => some { t with stack := st' }
+
 end Gossamer.C09
